@@ -9,6 +9,7 @@ import Lockable.Proofs.NoPanic
 import Lockable.Props.C01
 import Lockable.Proofs.Commute
 import Lockable.Proofs.SpecTrace
+import Lockable.Proofs.SpecTrace3
 namespace Lockable
 
 /-- No lost wake-up, state form: in every reachable state a free per-key mutex has no sleeping waiter —
@@ -257,5 +258,15 @@ example :
       [.acquire 1 7, .wait 2 7] ++ SEv.wait 3 7 :: ([.release 1 7, .grant 2 7, .release 2 7] ++ SEv.grant 3 7 :: []) ∧
     (∃ sp, applyEvs Spec.init [.acquire 1 7, .wait 2 7] = some sp ∧ 2 ∈ sp.waiting 7) := by
   refine ⟨by decide, _, rfl, by decide⟩
+
+/-- In the abstraction of every reachable state of the concurrent core: whenever somebody waits for a key, either the key's
+guard exists and may release it, or the first waiter may be granted it — the specification, and with Theorem C every run of
+the core, is never stuck on a key (no library-made deadlock; what remains is the client's own lock order and a fair scheduler). -/
+theorem C03_spec_never_stuck (kind : Kind) (as : List Act) (k : Nat)
+    (hw : (absSpec (run (State.init kind) as)).waiting k ≠ []) :
+    let sp := absSpec (run (State.init kind) as)
+    (∃ h, sp.held k = some h ∧ (applyEv sp (.release h k)).isSome) ∨
+    (∃ h, (sp.waiting k).head? = some h ∧ (applyEv sp (.grant h k)).isSome) :=
+  spec_never_stuck _ k hw
 
 end Lockable
